@@ -479,3 +479,19 @@ pub fn lossy(s: &str) -> String {
 pub fn deraw(s: &str) -> String {
     s.chars().map(|c| if ('\u{F800}'..='\u{F8FF}').contains(&c) { 'a' } else { c }).collect()
 }
+
+#[cfg(test)]
+mod raw_name_tests {
+    use super::*;
+    use std::os::unix::ffi::OsStrExt;
+    #[test]
+    fn raw_bytes() {
+        let s = format!("Ger{}t/ü.asm", raw_byte_char(0xE4));
+        assert!(has_raw(&s) && !has_raw("Gerät"));
+        assert_eq!(os(&s).as_bytes(), b"Ger\xE4t/\xC3\xBC.asm");
+        assert_eq!(lossy(&s), "Ger\u{FFFD}t/ü.asm");
+        assert_eq!(lossy(&s), pb(&s).to_string_lossy());
+        assert_eq!(deraw(&s), "Gerat/ü.asm");
+        assert_eq!(os(&raw_byte_char(0xFF).to_string()).as_bytes(), b"\xFF");
+    }
+}
